@@ -220,6 +220,31 @@ class ExcOf(D):
         return it.make_exc(it.resolve_exc_class(self.cls, None), ())
 
 
+class EnumSym(D):
+    """A member of a repository Enum as a symbolic value (no fork; usable inside symbolic sequences)."""
+
+    def __init__(self, cls):
+        self.cls = cls
+
+    def make(self, it, name, idx=()):
+        import z3 as _z3
+        from .values import Opaque, ref_sort
+
+        cls = it.resolve_class(self.cls)
+        it.ensure_enum(cls)
+        sort = ref_sort("enum:" + cls.qualname)
+        z = _leaf(name, idx, sort)
+        consts = [_z3.Const(f"{cls.qualname}.{m}", sort) for m in cls.members]
+        key = ("enumdistinct", cls.qualname)
+        if key not in it.path.flags:
+            it.path.flags.add(key)
+            if len(consts) > 1:
+                it.path.assume(_z3.Distinct(*consts))
+        if not idx:
+            it.path.assume(_z3.Or(*[z == c for c in consts]))
+        return Opaque("enum:" + cls.qualname, z, cls.qualname)
+
+
 class DictOf(D):
     """A dict with the given literal keys; keys listed in `optional` may be absent (fork)."""
 
@@ -290,7 +315,7 @@ class Contract:
     def __init__(self, target, args=None, requires=(), ensures=None, raises=(), modifies=(), returns=None, pure=False,
                  inline=False, invariants=None, trusted=False, prop=None, setup=None, ghost=None, varargs=None,
                  raises_ensures=None, note="", abstract_only=False, result_name=None, unroll=None, kind="function",
-                 concretize=None, native_setup=None, max_paths=None, bounded_note=None, effects=None, yield_effect=None, call_ensures=None, replay_real=False, replayable=True):
+                 concretize=None, native_setup=None, max_paths=None, bounded_note=None, effects=None, yield_effect=None, call_ensures=None, replay_real=False, replayable=True, ghost_init=None):
         self.target = target
         self.args = args or {}
         self.requires = list(requires)
@@ -315,6 +340,7 @@ class Contract:
         self.max_paths = max_paths
         self.bounded_note = bounded_note
         self.call_ensures = call_ensures  # clauses assumed at call sites instead of `ensures` (an abstraction of them; listed as assumed)
+        self.ghost_init = dict(ghost_init or {})  # ghost name -> clause over the arguments, evaluated at entry
         self.replayable = replayable  # False: the function cannot be driven natively in isolation (threads, live engine); refutations are reported without input
         self.replay_real = replay_real  # native replay leaves the real callee in place (inputs were concretized to agree with the model)
         self.effects = dict(effects or {})  # ghost updates performed by an abstract call: name -> clause
